@@ -15,7 +15,7 @@ PROPS = {
         decided="index shift (freq=) not positional shift, zero-fill on series addition/multiplication, per-pattern writer/reader collection agreement, linearity of load quantities in the traffic series, delay increased after a step's jobs are placed and steps enumerated from the uj_steps list itself (order and multiplicity), accumulators only added to (never overwritten, compounded or scaled inside the loop), empty-value shortcuts taken only on emptiness / == 0 tests (never on an ordering test that would swallow negative data_stored), a collection that is summed over holds each object once (navigation properties that concatenate their containers' lists are de-duplicated)",
         not_decided="the conservation identities themselves (floor/ceil hour arithmetic, totals)"),
     "C04": dict(
-        rules=["R-RAW2", "R-BOUND", "R-CUMUL", "R-WRITE:infra"],
+        rules=["R-RAW2", "R-BOUND", "R-CUMUL", "R-WRITE:infra", "R-PROV:infra"],
         decided="two-series raw array operations are aligned and unit-fixed (no positional arithmetic between two series); order-domain bounds nb >= raw, active <= nb; a fixed instance count is compared with the peak need before use; cumulative storage = running sum with the base need added first, checked before it is installed; stored data expires after its storage duration rounded up (never down) to whole hours",
         not_decided="every >= inequality numerically; float cancellation in the storage negativity check"),
     "C05": dict(
@@ -27,7 +27,7 @@ PROPS = {
         decided="twin pairing lists are built in lockstep and every pair is linked; rejections (naive date, outside period) precede any mutation; the filter keeps hours >= the date; naive local-time indexes are localised with the pattern's zone; no aware date is re-labelled with .replace(tzinfo=); no normal exit skips the modelled-period test; a cached localised index is keyed by its time zone too",
         not_decided="equality with the really-updated model; 'no hour before the date'"),
     "C07": dict(
-        rules=["R-OPREC", "R-OPPAR", "R-INPLACE", "R-LABEL", "R-SUMMARY", "R-PAREN", "R-VALUESTORE", "R-WRITE", "R-PARENT-USED", "R-CACHE:explainable", "R-CHAIN", "R-PUREVIEW"],
+        rules=["R-OPREC", "R-OPPAR", "R-INPLACE", "R-LABEL", "R-SUMMARY", "R-PAREN", "R-VALUESTORE", "R-WRITE", "R-PARENT-USED", "R-CACHE:explainable", "R-CHAIN", "R-PUREVIEW", "R-EDGE"],
         decided="recorded operator and operand order = computed ones; parents recorded on every return path; each recorded parent is used by the value; no unrecorded in-place numeric change and no store into .value from outside; every assigned result labelled; explain() parenthesises wherever precedence requires it",
         not_decided="numeric re-evaluation of each node"),
     "C08": dict(
